@@ -484,6 +484,30 @@ Proof. intros [wal [c|] r] d root; reflexivity. Qed.
 Lemma w_root_set : forall w d root, w_root (set_cleaner_dir w d root) = root.
 Proof. intros [wal [c|] r] d root; reflexivity. Qed.
 
+(** The batch archive attempts every eligible directory entry: in the Rust text (shape of
+    [archive_logs_up_to] regenerated as [walarch_archives_every_eligible]: one [archive_log] per entry the
+    scan accepts, pushed onto the returned vector, nothing cut off) and in the model ([archive_scan] returns
+    one result per entry [scan_id] accepts).  The cleaner's reading of "no [Err] among the results" as
+    "every file the deletion pass will hit is archived" rests on this. *)
+Lemma archives_all_flag : walarch_archives_every_eligible = true.
+Proof. reflexivity. Qed.
+
+Definition scan_hits (keep : N) (d : wdir) : wdir :=
+  filter (fun p => negb (is_none (scan_id (fst p) keep))) d.
+
+Lemma archive_scan_length : forall io wal todo root keep,
+  length (snd (archive_scan io wal todo root keep)) = length (scan_hits keep todo).
+Proof.
+  intros io wal todo. induction todo as [|[n o] r IH]; intros root keep; cbn [archive_scan scan_hits filter fst].
+  - reflexivity.
+  - destruct (scan_id n keep) as [id|] eqn:E; cbn [is_none negb].
+    + destruct (archive_log io wal root id) as [root1 r1] eqn:E1.
+      specialize (IH root1 keep).
+      destruct (archive_scan io wal r root1 keep) as [root2 rs] eqn:E2.
+      cbn [snd length] in *. unfold scan_hits in IH. rewrite IH. reflexivity.
+    + apply IH.
+Qed.
+
 (** the three outcomes of [cleanup_up_to true] in one place *)
 Lemma cleanup_conservative_char : forall fl w keep w' res,
   cleanup_up_to true fl w keep = (w', res) ->
@@ -1330,3 +1354,13 @@ Example ex_unterminated_last_entry :
   file_lines cls [65; 13; 10; 66] = [wit_line 5 1; wit_line 6 2] /\
   w_wal (fst r) = [] /\ recover_all (w_root (fst r)) = Some [wit_entry 5 1; wit_entry 6 2].
 Proof. vm_compute. repeat split; reflexivity. Qed.
+
+(** one archive result per eligible entry of the cleaner's directory, by the shape of the Rust text and in the model *)
+Lemma results_cover_every_eligible : forall fl w keep w' res,
+  walarch_archives_every_eligible = true /\
+  (cleanup_up_to true fl w keep = (w', res) -> length res = length (scan_hits keep (cleaner_dir w))).
+Proof.
+  intros fl w keep w' res. split; [exact archives_all_flag|]. intro H.
+  destruct (cleanup_conservative_char _ _ _ _ _ H) as [root1 [E _]].
+  rewrite <- (archive_scan_length (f_io fl) (cleaner_dir w) (cleaner_dir w) (w_root w) keep). rewrite E. reflexivity.
+Qed.
